@@ -67,10 +67,11 @@ def child_configs(seed, tier):
     rnd = random.Random(seed)
     k = 6 if tier == "thorough" else 3
     cwds = ["@verif", "@scratch", "/", "@tests/feaLib/data", "@tests/varLib/data", "@scratch"]
-    lcs = [("C.UTF-8", True), ("C", False), ("POSIX", True), ("C.UTF-8", True), ("C", False), ("C.UTF-8", True)]
+    lcs = [("C.UTF-8", True), ("C", False), ("POSIX", True), ("C", False), ("C.UTF-8", True), ("C.UTF-8", True)]
     tzs = ["UTC", "Pacific/Kiritimati", "America/St_Johns", "XXX-13:45", "Asia/Kathmandu", "America/Los_Angeles"]
-    order = list(range(1, 6))
+    order = [1, 2, 4, 5]
     rnd.shuffle(order)
+    order.insert(rnd.randrange(0, 2), 3)  # one child always runs inside the feature-file directory with an ASCII-only locale
     cfgs = []
     for i in range(k):
         j = 0 if i == 0 else order[i - 1]
